@@ -1,13 +1,13 @@
 package checks
 
 import (
-	"time"
 	"bytes"
 	"fmt"
 	"os"
 	"path/filepath"
 	"sort"
 	"strings"
+	"time"
 
 	"rcproxy/core/codec"
 	"rcproxy/core/zz_verif/world"
@@ -545,7 +545,7 @@ func c17Tables(res *Result) {
 
 func init() {
 	register(&Check{ID: "C17", Level: "model_checking",
-		Rule: "every command name of docs/command.md (supported and unsupported rows, ~230) + AUTH + 20 invented names x {lower, UPPER, every single-letter case flip (quick: first two)} x argument counts 0..5 (thorough 0..7) x position {alone, middle of a 3-request pipeline whose other members are valid GETs; thorough also first, last}, as closed-loop batches; QUIT and AUTH (with a configured password) separately; request sizes L-1, L, L+1, L+40 for a limit L=64 alone / split in three chunks / next to a small request, requests of exactly L, L+1 and 3L bytes for every command family (single-key read and write, split MGET/DEL/MSET, single-slot MGET, EVAL, EVALSHA), four small requests in one chunk whose total exceeds L; single-key and merged-MGET replies of size L-1, L, L+1; docs <-> hand-written spec <-> code tables compared in both directions; oracle: served iff (name in the documented set, case-insensitively) and (arity rule) and (own size <= L), otherwise exactly the corresponding error and NO backend receives anything for it, neighbours unaffected; distinct = observable outcomes",
+		Rule:      "every command name of docs/command.md (supported and unsupported rows, ~230) + AUTH + 20 invented names x {lower, UPPER, every single-letter case flip (quick: first two)} x argument counts 0..5 (thorough 0..7) x position {alone, middle of a 3-request pipeline whose other members are valid GETs; thorough also first, last}, as closed-loop batches; QUIT and AUTH (with a configured password) separately; request sizes L-1, L, L+1, L+40 for a limit L=64 alone / split in three chunks / next to a small request, requests of exactly L, L+1 and 3L bytes for every command family (single-key read and write, split MGET/DEL/MSET, single-slot MGET, EVAL, EVALSHA), four small requests in one chunk whose total exceeds L; single-key and merged-MGET replies of size L-1, L, L+1; docs <-> hand-written spec <-> code tables compared in both directions; oracle: served iff (name in the documented set, case-insensitively) and (arity rule) and (own size <= L), otherwise exactly the corresponding error and NO backend receives anything for it, neighbours unaffected; distinct = observable outcomes",
 		Scenarios: c17Scenarios, BudgetQuick: 100, BudgetThorough: 1500,
 		Seq: func(tier string, shard, n int, deadline time.Time, res *Result) {
 			if shard == 0 {
